@@ -47,7 +47,7 @@ EmitR ==
               sba  == IF enBA THEN Do(sb, a) ELSE sb
               ok2  == ok1 /\ ~sab.aborted /\ ~sba.aborted
               com  == enAB /\ enBA /\ SameState(s, sab, sba)
-              key  == <<ex.tr[i + 1], ex.tr[i + 2], com>>
+              key  == <<ex.tr[i + 1], ex.tr[i + 2], IF com THEN "commute" ELSE "not">>
           IN  (ok2 /\ enAB /\ key \notin TLCGet(2)) =>
                  /\ PrintT(ToJson([k |-> "real", id |-> ex.id, step |-> i + 1, commute |-> com, pid |-> pid,
                                    r1 |-> ex.tr[i + 1], r2 |-> ex.tr[i + 2],
